@@ -16,6 +16,9 @@ package jsonrpc2
 //@   ensures implies(result1 == nil, out(s.conn) == cat(old(out(s.conn)), "Content-Length: ", itoa(len(data)), "\r\n\r\n", data))
 //@   ensures implies(result1 == nil, result0 == len("Content-Length: ") + len(itoa(len(data))) + 4 + len(data))
 //@   ensures implies(result1 == nil, failedDuring == old(failedDuring))
+// An unsuccessful Write leaves no partial frame behind unless the connection itself refused bytes:
+// giving up (cancelled context, marshalling error) happens before the first byte of the frame.
+//@   ensures implies(result1 != nil && refused(s.conn) == old(refused(s.conn)), out(s.conn) == old(out(s.conn)))
 
 // Read: no panic on any input (index, slice and allocation obligations of the
 // safety sweep); success only if a positive length header was seen and exactly
